@@ -283,6 +283,7 @@ def c05(tier, rep):
     E.menu(rep, M.DIALECT, 4 if tier == "quick" else 5, invariants=["Inv_C05"], label="dialect")
     if tier == "thorough":
         E.traces(rep, E.record_all(E.src_generated(2000, SEED, sorted(json.loads(a)))), "generated-multidialect")
+    _dialect_table_intact(rep)
 
 
 PFX_TWO_RULES = [1, 3, 6, 2, 3, 7, 4, 6, 2]        # Feature, Background, Given; Rule, Background, And, Scenario, Given; Rule
@@ -845,6 +846,18 @@ def c15(tier, rep):
             rep.violation({"kind": "nondeterministic"}, {"engine": "determinism", "what": "two runs on the same input differ", "source": s})
         if "compile-mutated-document" in a["exc"]:
             rep.violation({"kind": "compile-mutates"}, {"engine": "determinism", "what": "Compiler.compile modified the document it was given", "source": s})
+    _dialect_table_intact(rep)
+
+
+def _dialect_table_intact(rep):
+    """module-level state: after everything this process has parsed and compiled, the dialect table in memory is still the master table (the Dialect
+    properties hand out the table's own lists)"""
+    import json, os
+    from common import REPO
+    from gherkin.dialect import DIALECTS
+    rep.case(("dialect-table-intact",))
+    if DIALECTS != json.load(open(os.path.join(REPO, "gherkin-languages.json"), encoding="utf8")):
+        rep.violation({"kind": "dialect-table-changed"}, {"engine": "determinism", "what": "gherkin.dialect.DIALECTS no longer equals the master table after the documents of this check were processed"})
 
 
 def c16(tier, rep):
